@@ -189,6 +189,13 @@ func (st *State) check(name, kind string, t Term, desc string, props []string, p
 	if st.inl != nil {
 		name = st.inl.prefix + name
 	}
+	if ex.con != nil && strings.HasPrefix(name, "safe/") && ex.con.Flags["design_panic="+name] {
+		// a panic the function documents as its reaction to an input no precondition can describe before the call
+		// (the dynamic type of a value user code will compute): not an obligation, an assumption, and listed as one
+		// in every evidence file ("flag design_panic=... on ...")
+		st.sc.assert(t)
+		return
+	}
 	o := &Obl{Name: ex.key + "/" + name, Kind: kind, Desc: desc, Func: ex.key, Path: ex.cur.ID, Props: props, Term: t.S}
 	if !pos.IsValid() && ex.fn != nil {
 		pos = ex.fn.Pos() // e.g. a compiler-generated return: point at the function
